@@ -6,6 +6,7 @@ import (
 	"runtime"
 	"sort"
 	"strings"
+	"time"
 
 	"verif.local/engine/explore"
 )
@@ -39,6 +40,11 @@ func sameInts(a, b []int) bool {
 func Explore(r *Result, sp SchedSpec) *explore.Stats {
 	// exactly one goroutine of a controlled execution runs at any time: keeping the hand-offs on one OS
 	// thread makes them several times cheaper (the value the implementation sees is the vsched seam's)
+	if sp.Opt.Deadline == 0 {
+		// searches that are expected to be small carry no cap of their own; an edited tree can make them
+		// arbitrarily large (more goroutines than the harness expected): end those with a reported cap
+		sp.Opt.Deadline = 10 * time.Minute
+	}
 	if os.Getenv("VERIF_SCHED_MP") == "" {
 		defer runtime.GOMAXPROCS(runtime.GOMAXPROCS(1))
 	}
